@@ -97,6 +97,13 @@ def gen_c04(rng, tier):
                 case.append("slice_bytes %s 0x%x" % (k, rva & U32))
                 if k == kf:
                     case.append("read_bytes %s 0x%x" % (k, (pe.image_base + rva) & ((1 << pe.bits) - 1)))
+                    # the VA entry point with an alignment request (the buffer itself is skewed by the img line:
+                    # what counts is the address of the byte, not the RVA), next to the RVA entry point
+                    d = rng.choice([0, 1, 2, 4, 6])
+                    for al in (2, 4, 8):
+                        mn = rng.choice([0, 1, al])
+                        case.append("read %s 0x%x %d %d" % (k, (pe.image_base + rva + d) & ((1 << pe.bits) - 1), mn, al))
+                        case.append("slice %s 0x%x %d %d" % (k, (rva + d) & U32, mn, al))
             for fo in offs:
                 case.append("f2r %s 0x%x" % (k, fo))
             # file offsets that do not fit 32 bits (`file_offset as Rva`, pe.rs:136 / 152, must never be reached
